@@ -156,6 +156,7 @@ def digraphs(draw, tier="quick", allow_outside=True, with_edits=False):
         )
         desc["edits"] = [list(e) for e in draw(st.lists(edit, max_size=3))]
         desc["reuse_nodes"] = draw(st.booleans())  # hand over the very same list/tuple object on every call
+        desc["orders"] = [draw(st.integers(0, 5)), draw(st.integers(0, 5))]  # call order before / after edits
     return desc
 
 
@@ -269,6 +270,16 @@ def _judge_condense_result(res, idx, N, edges, nodes, ctx=None):
     )
 
 
+_ORDERS = [
+    ("scc", "topo", "condense"),
+    ("topo", "condense", "scc"),
+    ("condense", "scc", "topo"),
+    ("scc", "condense", "topo"),
+    ("topo", "scc", "condense"),
+    ("condense", "topo", "scc"),
+]
+
+
 def _apply_edit(edit, edges):
     """Returns the new ordered edge list (a copy) or None when the edit is a no-op."""
     op = edit[0]
@@ -349,10 +360,12 @@ def run_callback(desc, ctx):
             _judge_condense_result(res, idx, N, edge_list, nodes, ctx)
 
     fns = {"scc": strongly_connected_components, "topo": topological_sort, "condense": condense}
+    o0, o1 = desc.get("orders", (0, 0))
+    first_round, later_rounds = _ORDERS[o0], _ORDERS[o1]
 
     load(edges)
-    for which, fn in fns.items():
-        judge(which, ctx.call(fn, given_nodes(), neighbors), edges)
+    for which in first_round:
+        judge(which, ctx.call(fns[which], given_nodes(), neighbors), edges)
 
     # --- call history: edit the graph behind the SAME neighbour-function object, ask again with an equal
     #     (or the identical) node sequence, judge against the graph as it is now.  An answer that is wrong
@@ -369,8 +382,8 @@ def run_callback(desc, ctx):
         sig_before = (G.scc_classes(N, history[-2], G.spanned(N, history[-2], nodes)), G.is_acyclic(N, history[-2], node_set))
         sig_now = (G.scc_classes(N, now, G.spanned(N, now, nodes)), G.is_acyclic(N, now, node_set))
         ctx.label(sig_before[0] != sig_now[0] and "edit-changes-sccs", sig_before[1] != sig_now[1] and "edit-changes-acyclicity")
-        for which, fn in fns.items():
-            res = ctx.call(fn, given_nodes(), neighbors)
+        for which in later_rounds:
+            res = ctx.call(fns[which], given_nodes(), neighbors)
             try:
                 judge(which, res, now)
             except Violation as v:
